@@ -158,6 +158,7 @@ def check(run):
     _r9(run, mods)
     _r10(run, mods)
     _r11(run, mods)
+    _r12(run, prog)
     from ..cachekey import check_caches
     check_caches(run, list(mods.values()) + [prog.modules['cherab.openadas.install']], 'C06-K', prog=prog)
 
@@ -696,6 +697,82 @@ def _r10(run, mods):
                     else:
                         run.ok('C06-R10', '%s.%s %s' % (mname, fname, nm), '; '.join(norm(st.value)[:40] for st in defs), sample=False)
     run.floor('C06-R10', 10)
+
+
+# ------------------------------------------------------------------------------------------ R12
+def _r12(run, prog):
+    """R12: every update reads the stored file into a RecursiveDict (from_dict) and dumps it back; the conversion must be a
+    structure-preserving copy -- every key of every level kept under the same key with its value (nested dicts converted), nothing
+    filtered -- or the keys that were not touched by the update do not 'keep their previous content'.  The same for freeze()."""
+    run.describe('C06-R12', 'RecursiveDict.from_dict / freeze copy every key of every level (no entry filtered or re-keyed)')
+    rel = 'cherab/core/utility/recursivedict.py'
+    mi = prog.load(rel, required=False)
+    if mi is None:
+        raise AnalysisError('anchored source file vanished: %s' % rel)
+    run.use_file(rel)
+    ci = prog.classes.get(mi.name + '.RecursiveDict')
+    if ci is None:
+        raise AnalysisError('anchored class vanished: RecursiveDict')
+    from ..inline import flatten, class_lookup
+    for mname in ('from_dict', 'freeze'):
+        fn0 = ci.methods.get(mname)
+        run.subject('C06-R12')
+        if fn0 is None:
+            raise AnalysisError('anchored method vanished: RecursiveDict.%s' % mname)
+        # the conversion may live in a private helper (from_dict -> _convert_dict_tree): judge the function that holds the loop
+        cands = [fn0] + [m for n_, m in ci.methods.items() if n_.startswith('_') and not n_.startswith('__')
+                         and any(isinstance(c, ast.Call) and isinstance(c.func, ast.Attribute) and c.func.attr == n_ for c in ast.walk(fn0))]
+        fn = next((f for f in cands if any(isinstance(x, (ast.For, ast.DictComp)) for x in ast.walk(f))), None)
+        K = '%s|RecursiveDict|%s|' % (mi.name, mname)
+        if fn is None:
+            run.undecided('C06-R12', 'RecursiveDict.' + mname, 'no loop over the entries found')
+            continue
+        loops = [x for x in ast.walk(fn) if isinstance(x, ast.For)]
+        if len(loops) != 1 or not (isinstance(loops[0].iter, ast.Call) and isinstance(loops[0].iter.func, ast.Attribute) and loops[0].iter.func.attr == 'items'
+                                   and isinstance(loops[0].target, ast.Tuple) and len(loops[0].target.elts) == 2
+                                   and all(isinstance(e, ast.Name) for e in loops[0].target.elts)):
+            run.undecided('C06-R12', 'RecursiveDict.' + mname, 'entry loop not of the form "for key, value in X.items()"')
+            continue
+        lp = loops[0]
+        kv, vv = [e.id for e in lp.target.elts]
+        src = norm(lp.iter.func.value)
+        bad = None
+        for x in ast.walk(lp):
+            if isinstance(x, (ast.Continue, ast.Break)):
+                bad = (x, 'skips entries (%s)' % type(x).__name__.lower())
+            elif isinstance(x, ast.Delete) or (isinstance(x, ast.Call) and isinstance(x.func, ast.Attribute) and x.func.attr in ('pop', 'popitem', 'clear')):
+                bad = (x, 'removes entries')
+        # full copy first (d = dict(self)) and values replaced in place, or a new container filled key by key
+        copies = [st for st in fn.body if isinstance(st, ast.Assign) and len(st.targets) == 1 and isinstance(st.value, ast.Call)
+                  and (dotted(st.value.func) in ('dict', 'copy.copy') and len(st.value.args) == 1
+                       or isinstance(st.value.func, ast.Attribute) and st.value.func.attr == 'copy' and not st.value.args)
+                  and any(isinstance(w, ast.Assign) and isinstance(w.targets[0], ast.Subscript) and norm(w.targets[0].value) == norm(st.targets[0])
+                          for w in ast.walk(lp))]
+        stores = [st for st in ast.walk(lp) if isinstance(st, ast.Assign) and isinstance(st.targets[0], ast.Subscript)]
+        if not bad and not copies:
+            top = [st for st in lp.body if st in stores]
+            if len(stores) != 1 or len(top) != 1:
+                cond = [st for st in stores if st not in lp.body]
+                bad = ((cond or stores or [lp])[0], 'stores an entry only under a condition' if cond else 'does not store each entry exactly once')
+            elif norm(top[0].targets[0].slice) != kv:
+                bad = (top[0], 'stores the entry under %s, not under its own key' % norm(top[0].targets[0].slice))
+        if not bad:
+            for st in stores:
+                if norm(st.targets[0].slice) != kv:
+                    bad = (st, 'stores the entry under %s, not under its own key' % norm(st.targets[0].slice))
+        if not bad:
+            # the value is changed only by the recursive conversion, under a type test of the value
+            for iff in [x for x in ast.walk(lp) if isinstance(x, ast.If)]:
+                t = iff.test
+                if not (isinstance(t, ast.Call) and dotted(t.func) == 'isinstance' and len(t.args) == 2 and norm(t.args[0]) == vv):
+                    bad = (iff, 'treats entries differently depending on (%s), which is not a type test of the value' % norm(t)[:40])
+        if bad:
+            run.fail('C06-R12', K + 'filter', rel, bad[0].lineno,
+                     'RecursiveDict.%s %s: the tree it returns is not a copy of the stored one, so an update that reads a file, adds its keys '
+                     'and writes it back loses or moves keys it was not asked to touch' % (mname, bad[1]))
+        else:
+            run.ok('C06-R12', 'RecursiveDict.' + mname, 'every entry kept under its key; nested mappings converted')
+    run.floor('C06-R12', 2)
 
 
 # ------------------------------------------------------------------------------------------ R11
